@@ -99,3 +99,17 @@ Definition check_case (kind : nat) (clip fresh : bool) (ops : list cop) : verdic
      nlogs := length ls |}.
 
 Definition verdict_ok (v : verdict) : bool := spec_ok v && model_ok v && iso_ok v.
+
+(** With == call site on the token rendering: [ng] WithGroup and [na0] With steps in front, then
+    With(a) + Log(b) against Log(a ++ b); [eq] is what the implementation showed. *)
+Definition callsite_model (kind ng na0 na nb : nat) : bool :=
+  let mk (base : N) (n : nat) := map (fun i => ((base + N.of_nat i)%N, 2)) (seq 0 n) in
+  let c : chain tA tG := map (fun i => DGroup (N.of_nat i, 3)) (seq 0 ng) ++ map (fun i => DAttrs [((100 + N.of_nat i)%N, 2)]) (seq 0 na0) in
+  let f := flags_of kind true true in
+  let la := mk 200%N na in
+  let lb := mk 300%N nb in
+  list_eqb
+    (line_alone (list N) tA tG unit tok_render_attrs (kind_group kind) tok_header tok_closer [] f go_grow (c ++ [DAttrs la]) (mkRecord tt lb))
+    (line_alone (list N) tA tG unit tok_render_attrs (kind_group kind) tok_header tok_closer [] f go_grow c (mkRecord tt (la ++ lb))).
+Definition check_callsite (kind : nat) (eq : bool) (ng na0 na nb : nat) : bool * bool :=
+  (eq, callsite_model kind ng na0 na nb).
